@@ -30,8 +30,14 @@ fn cases() -> Vec<(Fmt, Binding)> {
         (Fmt::Tiff, Binding::Default),
         (Fmt::Wav, Binding::Default),
         (Fmt::Gif, Binding::Default),
+        // the last two are validated without trust anchors: the parent then carries a tolerated
+        // failure (signingCredential.untrusted) and the asset is Valid, not Trusted
+        (Fmt::Jpeg, Binding::Default),
+        (Fmt::Mp4, Binding::Default),
     ]
 }
+
+const UNTRUSTED_FROM: usize = 7;
 
 fn update_sign(ctx: &Arc<c2pa::Context>, def: serde_json::Value, fmt: Fmt, src: &[u8], tweak: impl FnOnce(&mut Builder)) -> Result<Vec<u8>, String> {
     let mut b = Builder::from_shared_context(ctx).with_definition(def).map_err(|e| err_kind(&e))?;
@@ -44,7 +50,7 @@ fn update_sign(ctx: &Arc<c2pa::Context>, def: serde_json::Value, fmt: Fmt, src: 
     Ok(d.into_inner())
 }
 
-fn build(rc: &mut RunCtx, fmt: Fmt, binding: Binding, variant: u64) -> Result<Signed, String> {
+fn build(rc: &mut RunCtx, fmt: Fmt, binding: Binding, variant: u64, untrusted: bool) -> Result<Signed, String> {
     let overlay = sdk::binding_overlay(binding);
     let ctx = Arc::new(sdk::make_context(&overlay));
     c2pa::verif::set_random_seed(Some(hash_str(&format!("c21-{}-{}-{:?}-{variant}", rc.seed, fmt.name(), binding))));
@@ -63,9 +69,19 @@ fn build(rc: &mut RunCtx, fmt: Fmt, binding: Binding, variant: u64) -> Result<Si
     if let Some(e) = err {
         return Err(format!("update sign: {e}"));
     }
+    let ctx = if untrusted {
+        let mut o = overlay.clone();
+        sdk::merge(&mut o, &json!({"trust": {"trust_anchors": null, "trust_config": null, "user_anchors": null}}));
+        Arc::new(sdk::make_context(&o))
+    } else {
+        ctx
+    };
     let clean = sdk::read_plain(&ctx, fmt.mime(), &bytes).map_err(|e| format!("clean read: {e}"))?;
     if !clean.is_ok_state() {
         return Err(format!("SKIP update manifest does not validate right after signing: {}", clean.brief()));
+    }
+    if untrusted && clean.state != "Valid" {
+        return Err(format!("untrusted reader expected Valid, got {}", clean.brief()));
     }
     // the update manifest has no hard binding: the binding in force is the parent's
     let labels: Vec<String> = clean.detailed.get("manifests").and_then(|m| m.as_object()).map(|m| m.keys().cloned().collect()).unwrap_or_default();
@@ -105,7 +121,7 @@ impl Property for C21 {
         Meta {
             id: "C21",
             level: "fault_enumeration",
-            rule: "one evaluation = a real validation of an asset carrying an UPDATE manifest (BuilderIntent::Update signed over an already signed parent; JPEG data/box hash, PNG, MP4, TIFF, WAV, GIF) after one stored-byte fault from C01's complete single-fault list (every position x 4 patterns, truncations, 1-byte insert/delete everywhere, appends, block faults); oracle: Valid/Trusted => the change is confined to the manifest region / the parent's declared exclusions and the report is unchanged. Plus 4 fixed rule-violating update manifests (forbidden action, no parent, two parents, own hard binding) offered to the Builder, which must fail to sign or read back non-Valid; plus the same rules against a signer gone wrong: a valid update manifest whose assertion is edited (action c2pa.published -> c2pa.converted, parentOf -> inputTo / componentOf, a custom assertion relabelled c2pa.hash.data), the claim's assertion digest repaired and the claim signed again with the same credentials through the SDK's own cose_sign (hook H9), re-embedded by the real handler: never Valid/Trusted; the identical pipeline with a rule-abiding edit is the control and must stay Valid. Distinct = (case, fault)",
+            rule: "one evaluation = a real validation of an asset carrying an UPDATE manifest (BuilderIntent::Update signed over an already signed parent; JPEG data/box hash, PNG, MP4, TIFF, WAV, GIF; JPEG and MP4 once more validated without trust anchors, where the parent carries the tolerated failure signingCredential.untrusted and the asset is Valid rather than Trusted) after one stored-byte fault from C01's complete single-fault list (every position x 4 patterns, truncations, 1-byte insert/delete everywhere, appends, block faults); oracle: Valid/Trusted => the change is confined to the manifest region / the parent's declared exclusions and the report is unchanged. Plus 4 fixed rule-violating update manifests (forbidden action, no parent, two parents, own hard binding) offered to the Builder, which must fail to sign or read back non-Valid; plus the same rules against a signer gone wrong: a valid update manifest whose assertion is edited (action c2pa.published -> c2pa.converted, parentOf -> inputTo / componentOf, a custom assertion relabelled c2pa.hash.data), the claim's assertion digest repaired and the claim signed again with the same credentials through the SDK's own cose_sign (hook H9), re-embedded by the real handler: never Valid/Trusted; the identical pipeline with a rule-abiding edit is the control and must stay Valid. Distinct = (case, fault)",
             assumptions: &[
                 "for data-hash parents the excluded region on the final asset is the manifest region reported by the handler (cross-checked to contain the store bytes), because the validator re-bases the parent's exclusion onto it",
                 "the space of crafted rule-violating update manifests beyond the four listed is not explored",
@@ -140,9 +156,10 @@ impl Property for C21 {
         }
         let within = within - 3;
         let (fmt, binding) = cs[(within / SHARDS) as usize];
+        let untrusted = (within / SHARDS) as usize >= UNTRUSTED_FROM;
         let shard = within % SHARDS;
-        let tag = format!("update:{}:{:?}:v{variant}", fmt.name(), binding);
-        let s = match build(rc, fmt, binding, variant) {
+        let tag = format!("update:{}:{:?}{}:v{variant}", fmt.name(), binding, if untrusted { ":no-trust-anchors" } else { "" });
+        let s = match build(rc, fmt, binding, variant, untrusted) {
             Ok(s) => s,
             Err(e) if e.starts_with("SKIP") => {
                 // the round trip of an update manifest on this format is C03's business
